@@ -116,7 +116,7 @@ pub enum TokenType {
     Identifier,
 
     // B.1.2 Constants
-    #[regex(r"16#[0-9A-F][0-9A-F_]*")]
+    #[regex(r"16#[0-9A-Fa-f][0-9A-Fa-f_]*")]
     HexDigits,
     #[regex(r"8#[0-7][0-7_]*")]
     OctDigits,
